@@ -602,7 +602,7 @@ func (f *frame) child(fn *ssa.Function, pure bool) *frame {
 	}
 	return &frame{e: f.e, c: f.c, fn: fn, pkg: f.pkg, vals: map[ssa.Value]*Val{}, pure: pure || f.pure, bound: f.bound,
 		st: f.st, reach: f.reach, oldSt: f.oldSt, depth: f.depth + 1, prefix: fmt.Sprintf("%s#%d!", fn.Name(), id), inline: f.inline,
-		triggers: f.triggers, ranges: f.rangesEnv(), bounds: copyBounds(f.bounds), symc: f.symCells(), topFC: f.topContract(), outerOpen: f.openLoopPreds()}
+		triggers: f.triggers, ranges: f.rangesEnv(), bounds: copyBounds(f.bounds), symc: f.symCells(), topFC: f.topContract(), outerOpen: f.openLoopPreds(), parent: f}
 }
 
 // mergedResult combines the return values of a finished frame.
